@@ -2,9 +2,9 @@ import SqlObjVerif.Model.OrmVal
 import SqlObjVerif.Model.DrvUtil
 /-! Driver for C16 (same protocol and model as `Drv/C05.lean`).  One request per line:
 
-`reset k lazy0 cv0 n0 … ` | `create h cls id c=v…` | `fetch h cls id 0|1` | `refresh h` | `selstmt cls` |
+`reset docache lazy0 cv0 n0 fk0 … ` (fk: `-`, `n<T>` = ForeignKey to class T cascade='null', `c<T>` = cascade=True) | `create h cls id c=v…` | `fetch h cls id 0|1` | `refresh h` | `selstmt cls` |
 `read h c` | `setattr h c v fail` | `set h fail c=v…` | `syncupdate h fail` | `sync h fail` | `expire h` |
-`expireall` | `expireallcls cls` | `destroy h` | `pickle h fail` | `drop h` | `oobupdate cls id c v` |
+`expireall` | `expireallcls cls` | `destroy h [S<k> | r<hr> | R<hr>:<k>:<id>]…` (dependents loop: select over class k, held / library-built referencing instance) | `pickle h fail` | `drop h` | `oobupdate cls id c v` |
 `oobdelete cls id` | `oobinsert cls id c=v…` | `peek h` | `row cls id`
 Values: integer, `N` (None), `B` (rejected by the validator).
 Answer of an operation: `<out> | <statements sent by it> | u=<UPDATE statements sent by it>`. -/
@@ -29,6 +29,7 @@ def showStmt : Stmt → String
   | .selectRow c i => s!"S {c} {i}"
   | .selectCol c i k => s!"Sc {c} {i} {k}"
   | .selectCls c => s!"Sa {c}"
+  | .selectRefs k c i => s!"Sr {k} {c} {i}"
 
 def showOut : Out → String
   | .ok => "ok"
@@ -63,18 +64,36 @@ def all? {α} (l : List (Option α)) : Option (List α) :=
 def bool? (s : String) : Option Bool :=
   if s == "1" then some true else if s == "0" then some false else none
 
-def parseCfg : List String → Option (List (Bool × Bool × Nat))
+def fk? (s : String) : Option (Option (Cls × FkKind)) :=
+  if s == "-" then some none
+  else if s.startsWith "n" then ((s.drop 1).toNat?).map fun t => some (t, FkKind.null)
+  else if s.startsWith "c" then ((s.drop 1).toNat?).map fun t => some (t, FkKind.cascade)
+  else none
+
+def parseCfg : List String → Option (List (Bool × Bool × Nat × Option (Cls × FkKind)))
   | [] => some []
-  | l :: c :: n :: r => match bool? l, bool? c, n.toNat?, parseCfg r with
-    | some l, some c, some n, some rest => some ((l, c, n) :: rest)
-    | _, _, _, _ => none
+  | l :: c :: n :: f :: r => match bool? l, bool? c, n.toNat?, fk? f, parseCfg r with
+    | some l, some c, some n, some f, some rest => some ((l, c, n, f) :: rest)
+    | _, _, _, _, _ => none
   | _ => none
 
-def mkCfg (doCache : Bool) (l : List (Bool × Bool × Nat)) : Cfg :=
+def mkCfg (doCache : Bool) (l : List (Bool × Bool × Nat × Option (Cls × FkKind))) : Cfg :=
   { lazyUpdate := fun c => (l[c]?.map (·.1)).getD false,
     cacheValues := fun c => (l[c]?.map (·.2.1)).getD true,
-    ncols := fun c => (l[c]?.map (·.2.2)).getD 0,
+    ncols := fun c => (l[c]?.map (·.2.2.1)).getD 0,
+    fk := fun c => (l[c]?.map (·.2.2.2)).getD none,
     doCache := doCache }
+
+def refStep? (s : String) : Option RefStep :=
+  if s.startsWith "S" then ((s.drop 1).toNat?).map RefStep.sel
+  else if s.startsWith "r" then ((s.drop 1).toNat?).map fun h => RefStep.row h none
+  else if s.startsWith "R" then
+    match (s.drop 1).toString.splitOn ":" with
+    | [h, k, i] => match h.toNat?, k.toNat?, i.toNat? with
+      | some h, some k, some i => some (RefStep.row h (some (k, i)))
+      | _, _, _ => none
+    | _ => none
+  else none
 
 def parseOp (ws : List String) : Option Op :=
   match ws with
@@ -106,7 +125,9 @@ def parseOp (ws : List String) : Option Op :=
   | ["expire", h] => h.toNat?.map .expire
   | ["expireall"] => some .expireAll
   | ["expireallcls", c] => c.toNat?.map .expireAllCls
-  | ["destroy", h] => h.toNat?.map .destroy
+  | "destroy" :: h :: refs => match h.toNat?, all? (refs.map refStep?) with
+    | some h, some refs => some (.destroy h refs)
+    | _, _ => none
   | ["pickle", h, f] => match h.toNat?, bool? f with
     | some h, some f => some (.pickle h f)
     | _, _ => none
